@@ -41,6 +41,16 @@ Theorem C01_accepted_architecture_distills : forall os tol s n cs,
   exists r, distill os tol s n (arch_layers (arch_run false (arch_new n) cs)) = Some r.
 Proof. exact accepted_architecture_distills. Qed.
 
+(* split points: the tree distilled from the first layers, composed with the tree distilled from the remaining ones,
+   denotes what the tree distilled from the whole list denotes (C18's split clause for the pruned trees themselves) *)
+Theorem C01_distilled_split : forall os1 os2 os tol s n d1 dout l1 l2 x,
+  layers_out_dim n l1 = Some d1 -> layers_out_dim d1 l2 = Some dout -> Forall layer_wf l1 -> Forall layer_wf l2 ->
+  (forall j z, osound (os1 j) z) -> (forall j z, osound (os2 j) z) -> (forall j z, osound (os j) z) -> length x = n ->
+  exists r1 r2 r, distill os1 tol s n l1 = Some r1 /\ distill os2 tol s d1 l2 = Some r2 /\
+                  distill os tol s n (l1 ++ l2) = Some r /\
+                  eval (compose (erase r1) (erase r2)) x = cev r x.
+Proof. exact distilled_split. Qed.
+
 (* the certified solver is an oracle that satisfies the hypothesis for every input of the right length *)
 Theorem C01_exact_oracle_exists : forall n x, length x = n -> osound (solver_oracle n) x.
 Proof. exact solver_oracle_sound. Qed.
@@ -59,5 +69,6 @@ Print Assumptions C01_layer_step.
 Print Assumptions C01_rejects_inconsistent.
 Print Assumptions C01_defined_iff_consistent.
 Print Assumptions C01_accepted_architecture_distills.
+Print Assumptions C01_distilled_split.
 Print Assumptions C01_exact_oracle_exists.
 Print Assumptions C01_nonvacuous.
